@@ -27,10 +27,10 @@ TECHNIQUE = 'runtime monitoring: differential reference-model monitor (independe
 
 def cases(tier, seed):
     cs = []
-    n = 140 if tier == 'quick' else 1600
+    n = 140 if tier == 'quick' else 8000
     for i in range(n):
         cs.append({'t': 'shape', 'i': i, 'seed': seed})
-    for i in range(24 if tier == 'quick' else 200):
+    for i in range(24 if tier == 'quick' else 800):
         cs.append({'t': 'concat', 'i': i, 'seed': seed})
     if gpgx.available():
         cs.append({'t': 'gpg', 'seed': seed, 'n': 4 if tier == 'quick' else 20})
